@@ -465,8 +465,9 @@ func (e *MetaCDC) Create(req *request.CreateRequest) (resp *request.CreateRespon
 		}
 	}
 
+	keepCollectionNames := false
 	defer func() {
-		if err != nil {
+		if err != nil && !keepCollectionNames {
 			revertCollectionNames()
 		}
 	}()
@@ -587,6 +588,10 @@ func (e *MetaCDC) Create(req *request.CreateRequest) (resp *request.CreateRespon
 
 	err = e.metaStoreFactory.GetTaskInfoMetaStore(ctx).Put(ctx, info, nil)
 	if err != nil {
+		// the write may have been applied although it was reported as failed: do not leave a record no request owns
+		if _, deleteErr := store.DeleteTask(e.metaStoreFactory, info.TaskID); deleteErr != nil {
+			log.Warn("fail to clean the task meta", zap.String("task_id", info.TaskID), zap.Error(deleteErr))
+		}
 		return nil, servererror.NewServerError(errors.WithMessage(err, "fail to put the task info to etcd"))
 	}
 	metrics.TaskNumVec.Add(info.TaskID, info.State)
@@ -599,6 +604,8 @@ func (e *MetaCDC) Create(req *request.CreateRequest) (resp *request.CreateRespon
 		deleteErr := e.delete(info.TaskID)
 		if deleteErr != nil {
 			log.Warn("fail to delete the task", zap.String("task_id", info.TaskID), zap.Error(deleteErr))
+			// the task is still there (and can be deleted or resumed later): its collections stay reserved
+			keepCollectionNames = true
 			return nil, servererror.NewServerError(deleteErr)
 		}
 		return nil, err
